@@ -8,8 +8,9 @@
 (*   EnvelopeSatisfiable : in every state some decision is allowed for every running trial,         *)
 (*   CheckStepIsCode     : the declarative CheckStep equals the code's _is_first_in_interval_step.   *)
 (* Kinds without an algorithm model in a grid (sha with min_resource="auto") are decided by an       *)
-(* "ideal pruner" that picks any allowed decision.  The same module, with the "sim" grid, generates  *)
-(* the call histories (TLC -simulate) that the harness plays through the real API.                   *)
+(* "ideal pruner" that picks any allowed decision.  The same module, as family "sim" (no grid: the   *)
+(* harness pairs each behaviour with pruner parameters), generates the call histories               *)
+(* (TLC -simulate) that the harness plays through the real API.                                      *)
 EXTENDS Pruners
 CONSTANTS Family,        \* which configuration grid
           MaxTrials, MaxStep, MaxVal, MaxReports, WithNaN, FinishStates
